@@ -29,6 +29,8 @@ type BarSpec struct {
 	Ext       int       `json:"ext,omitempty"`         // extender lines
 	ExtRev    bool      `json:"ext_rev,omitempty"`     //
 	ExtFailAt int       `json:"ext_fail_at,omitempty"` // k-th extender call fails
+	ErrKind   int       `json:"err_kind,omitempty"`    // which error value a failing filler/extender returns: 0 custom, 1 io.EOF, 2 io.ErrUnexpectedEOF
+	ExtFrag   bool      `json:"ext_frag,omitempty"`    // the extender ends its output with a fragment that is not newline-terminated (dropped by the library)
 	Pre       []DecSpec `json:"pre,omitempty"`
 	App       []DecSpec `json:"app,omitempty"`
 	AddBy     int       `json:"add_by"` // -1 director before clients start; k = client k adds it
